@@ -2,6 +2,7 @@ import Rare.Drv.Expr
 import Rare.Model.C09
 import Rare.Model.C09Utf8
 import Rare.Spec.C09Frag
+import Rare.Model.C09Err
 /-!
 Line-protocol ops of C09.
 
@@ -21,6 +22,11 @@ Line-protocol ops of C09.
                                                   and checks `print_compile_std_fragment` on it (no errors, value =
                                                   `evalTree` under `stdSem`); the real side compiles ITS print with the real
                                                   function table – so `stdSem` is compared with the real helpers
+  look  <opt> <template raw bytes>                 compile with the probe registry, evaluate against a RECORDING context:
+                                                  value + every `GetMatch(i)` / `GetKey(k)` in order (so that the integer
+                                                  rule of `stageSimpleVariable` is observed, not just its value)
+  cerr  <opt> <template raw bytes>                 `StageCount()`, `errors.Is` for the three sentinels, `Unwrap()`, and the
+                                                  full `Error()` text of the returned `*CompilerErrors` (errors.go)
   streex <opt> <tokens> <elems> <keys>            the same without the claim: any tree over the standard names; the
                                                   theorem is checked when `fragOk` holds, otherwise only compile + evaluate
 -/
@@ -113,8 +119,42 @@ def treeOf : PTree → Expr
 
 def probeFn : List Char → List Bytes → Bytes := probeSem
 
+def lookStr : Look → String
+  | .m i => s!"m{i}"
+  | .k key => "k" ++ Hex.enc key
+
+/-- messages of the probe registry's failing builders (`bad`, `nil`) -/
+def testFuncMsg (tag : String) : String :=
+  if tag == "argcount" then "invalid number of arguments" else "?" ++ tag
+
 def handle (args : List String) : String :=
   match args with
+  | ["look", o, t] =>
+    match Hex.dec t with
+    | some tb =>
+      match compileBytes testRegistry (o == "1") tb with
+      | .error m => Rare.Drv.Expr.panicAns m
+      | .ok (stages, errs) =>
+        match runLog (buildKey stages) [] with
+        | .error m => Rare.Drv.Expr.panicAns m
+        | .ok (v, log) =>
+          s!"ok errs={Rare.Drv.Expr.errsStr errs} val={Hex.enc v} log={if log.isEmpty then "." else ",".intercalate (log.map lookStr)}"
+    | none => "bad-args"
+  | ["cerr", o, t] =>
+    match Hex.dec t with
+    | some tb =>
+      match compileBytes testRegistry (o == "1") tb with
+      | .error m => Rare.Drv.Expr.panicAns m
+      | .ok (stages, errs) =>
+        let b := fun (x : Bool) => if x then "1" else "0"
+        let first := match unwrapFirst errs with
+          | some e => Hex.enc (detailedError testFuncMsg e)
+          | none => "-"
+        let msg := match compileError testFuncMsg tb errs with
+          | some m => Hex.enc m
+          | none => "nil"
+        s!"ok n={stages.length} is={b (errorsIs errs .unterminated)}{b (errorsIs errs .emptyStatement)}{b (errorsIs errs .missingFunction)} first={first} msg={msg}"
+    | none => "bad-args"
   | ["tpl", o, t, el, ks] =>
     match Hex.dec t, decHexList el, decHexList ks with
     | some tb, some elems, some keys =>
